@@ -129,9 +129,22 @@ pub struct Obs {
     pub desc: Option<Value>,
     /// numeric side information (e.g. bit-equal counts), summed over cases
     pub counters: Vec<(&'static str, u64)>,
+    /// labelled maxima of the normalised error
+    pub errs: Vec<(String, f64)>,
 }
 
 impl Obs {
+    /// record a normalised error under a label (and in the overall maximum)
+    pub fn err_l(&mut self, label: &str, normalised: f64) {
+        self.err(normalised);
+        if let Some(e) = self.errs.iter_mut().find(|(l, _)| l == label) {
+            if normalised > e.1 {
+                e.1 = normalised;
+            }
+        } else {
+            self.errs.push((label.to_string(), normalised));
+        }
+    }
     pub fn class(&mut self, c: impl Into<String>) {
         self.classes.push(c.into());
     }
@@ -174,6 +187,7 @@ pub struct Report {
     pub counters: BTreeMap<String, u64>,
     pub samples: Vec<Value>,
     pub max_err: f64,
+    pub max_err_by: BTreeMap<String, f64>,
     pub known_hits: BTreeMap<String, u64>,
     pub exhaustive: Option<bool>,
     pub notes: Vec<String>,
@@ -195,6 +209,12 @@ impl Report {
         }
         if obs.max_err > self.max_err {
             self.max_err = obs.max_err;
+        }
+        for (l, v) in obs.errs {
+            let e = self.max_err_by.entry(l).or_insert(0.0);
+            if v > *e {
+                *e = v;
+            }
         }
         if let Some(d) = obs.desc {
             if self.samples.len() < max_samples {
@@ -223,6 +243,12 @@ impl Report {
         }
         if o.max_err > self.max_err {
             self.max_err = o.max_err;
+        }
+        for (l, v) in o.max_err_by {
+            let e = self.max_err_by.entry(l).or_insert(0.0);
+            if v > *e {
+                *e = v;
+            }
         }
         self.notes.extend(o.notes);
     }
@@ -302,6 +328,74 @@ fn guarded_enum(check: &dyn Check, idx: u64, tier: Tier, obs: &mut Obs) -> Resul
         Ok(r) => r,
         Err(p) => Err(Fail::new("panic-in-check", format!("unexpected panic: {p}"))),
     }
+}
+
+/// Deterministic shrinker over the entropy vector (all decoders map 0 to the simplest
+/// choice): zero blocks of decreasing size, then lower single values by bisection. A candidate
+/// is kept only if the check still fails with the same signature and that signature is not a
+/// known finding. Bounded by evaluation count, not time.
+pub fn shrink(check: &dyn Check, mut data: Vec<u64>, mut fail: Fail, known: &Known) -> (Vec<u64>, Fail) {
+    let id = check.id();
+    let sig = fail.sig.clone();
+    let mut budget = 1500u32;
+    let mut try_cand = |cand: &[u64], budget: &mut u32| -> Option<Fail> {
+        if *budget == 0 {
+            return None;
+        }
+        *budget -= 1;
+        let mut obs = Obs::default();
+        match guarded_case(check, cand, &mut obs) {
+            Err(f) if f.sig == sig && known.matches(id, &f.sig).is_none() => Some(f),
+            _ => None,
+        }
+    };
+    // trailing entropy that is never read does not matter: cut it conceptually by zeroing
+    let mut block = data.len().next_power_of_two() / 2;
+    while block >= 1 && budget > 0 {
+        let mut start = 0;
+        while start < data.len() && budget > 0 {
+            let end = (start + block).min(data.len());
+            if data[start..end].iter().any(|&v| v != 0) {
+                let mut cand = data.clone();
+                for v in &mut cand[start..end] {
+                    *v = 0;
+                }
+                if let Some(f) = try_cand(&cand, &mut budget) {
+                    data = cand;
+                    fail = f;
+                }
+            }
+            start += block;
+        }
+        block /= 2;
+    }
+    // lower individual values
+    for i in 0..data.len() {
+        if budget == 0 {
+            break;
+        }
+        if data[i] == 0 {
+            continue;
+        }
+        let mut lo = 0u64; // known not to fail (0 was tried in the block pass)
+        let mut hi = data[i];
+        for _ in 0..6 {
+            if budget == 0 || hi - lo <= 1 {
+                break;
+            }
+            let mid = lo + (hi - lo) / 2;
+            let mut cand = data.clone();
+            cand[i] = mid;
+            if let Some(f) = try_cand(&cand, &mut budget) {
+                data = cand;
+                fail = f;
+                hi = mid;
+            } else {
+                lo = mid;
+            }
+        }
+    }
+    (data, fail)
 }
 
 pub fn splitmix(mut z: u64) -> u64 {
@@ -435,6 +529,8 @@ pub fn drive(check: &dyn Check, tier: Tier, seed: u64, threads: usize, known: &K
     if violation.is_none() && total > 0 {
         let per = total.div_ceil(threads as u64);
         let elen = check.entropy_len();
+        let stop = std::sync::atomic::AtomicBool::new(false);
+        let stop = &stop;
         let results: Vec<(Report, Option<(Vec<u64>, Fail)>)> = std::thread::scope(|s| {
             let hs: Vec<_> = (0..threads as u64)
                 .map(|w| {
@@ -444,7 +540,7 @@ pub fn drive(check: &dyn Check, tier: Tier, seed: u64, threads: usize, known: &K
                             failure_persistence: None,
                             rng_algorithm: RngAlgorithm::ChaCha,
                             rng_seed: RngSeed::Fixed(0),
-                            max_shrink_iters: 3000,
+                            max_shrink_iters: 0,
                             max_shrink_time: 0,
                             ..Config::default()
                         };
@@ -458,6 +554,10 @@ pub fn drive(check: &dyn Check, tier: Tier, seed: u64, threads: usize, known: &K
                         let failed = std::cell::Cell::new(false);
                         let last_fail: RefCell<Option<Fail>> = RefCell::new(None);
                         let res = runner.run(&strat, |data| {
+                            if !failed.get() && stop.load(std::sync::atomic::Ordering::Relaxed) {
+                                // another worker found a violation: stop exploring
+                                return Ok(());
+                            }
                             let want = !failed.get() && w == 0 && rep.borrow().samples.len() < 8;
                             let mut obs = Obs { want_desc: want, ..Obs::default() };
                             match guarded_case(check, &data, &mut obs) {
@@ -479,6 +579,7 @@ pub fn drive(check: &dyn Check, tier: Tier, seed: u64, threads: usize, known: &K
                                         return Ok(());
                                     }
                                     failed.set(true);
+                                    stop.store(true, std::sync::atomic::Ordering::Relaxed);
                                     let m = f.msg.clone();
                                     *last_fail.borrow_mut() = Some(f);
                                     Err(TestCaseError::fail(m))
@@ -488,13 +589,11 @@ pub fn drive(check: &dyn Check, tier: Tier, seed: u64, threads: usize, known: &K
                         let bad = match res {
                             Ok(()) => None,
                             Err(TestError::Fail(_, data)) => {
-                                // re-run the minimal case to get its own failure record
-                                let mut obs = Obs::default();
-                                let f = guarded_case(check, &data, &mut obs)
-                                    .err()
-                                    .or_else(|| last_fail.borrow_mut().take())
-                                    .unwrap_or_else(|| Fail::new("unknown", "failure vanished on re-run"));
-                                Some((data, f))
+                                let f0 = last_fail
+                                    .borrow_mut()
+                                    .take()
+                                    .unwrap_or_else(|| Fail::new("unknown", "failure record lost"));
+                                Some(shrink(check, data, f0, known))
                             }
                             Err(TestError::Abort(r)) => {
                                 Some((Vec::new(), Fail::new("proptest-abort", format!("{r}"))))
@@ -568,6 +667,7 @@ pub fn write_evidence(check: &dyn Check, tier: Tier, seed: u64, out: &RunOutcome
         "classes": r.classes,
         "counters": r.counters,
         "max_normalised_error": r.max_err,
+        "max_normalised_error_by_class": r.max_err_by,
         "regressions_replayed": regress_replayed,
         "known_finding_hits": r.known_hits,
         "random_cases_requested": check.cases(tier),
